@@ -7,13 +7,13 @@ CONSTANTS
  Dev = {}
  TrimOn = "match"
  Defect = "none"
- MaxFeeds = 4
- MaxDials = 1
- MaxTime = 0
+ MaxFeeds = 3
+ MaxDials = 2
+ MaxTime = 2
  MaxSubs = 1
- FeedSet <- FramesReorgSmall
- DialSet <- DialOK
- CloseSet <- CloseNone
+ FeedSet <- FramesMixed
+ DialSet <- DialAll
+ CloseSet <- CloseAll
  AllowCancel = FALSE
  Spe = 4
  Gen <- Gen0
